@@ -2,7 +2,7 @@
    Static part: the loop model has no other outcome, for every oracle trace; every numeric assertion on
    the solve path is backed by a theorem (table Effects.numeric_asserts).  Per-run part:
    factprops/FactsC06.v (every raise / assert / handler in /repo is of a known kind). *)
-From Verif Require Import Loop LoopInst LoopProofs LoopTop PenaltyProofs StepCtl CtlProofs Effects.
+From Verif Require Import Loop LoopInst LoopProofs LoopTop PenaltyProofs StepCtl CtlProofs Effects ActiveTau TauProofs.
 From Coq Require Import Lqa.
 
 Section C06.
@@ -37,7 +37,35 @@ Example C06_nonvacuous :
   match ex_solve 40 (ex_cfg None None LagFilter false) 8 with Done _ _ _ => True | _ => False end.
 Proof. vm_compute. exact I. Qed.
 
+(* NewtonController.compute_tau (the parameter of the active-set rules), for every point, gradient and box, infinite
+   bounds included: the SmallestActiveSet rule never takes the minimum of an empty selection (no ValueError), the
+   minimum it takes is positive (its assertion `min_tau >= 0`), and what it returns is positive; the
+   LargestActiveSet rule returns at least one and can only fail on a problem without variables *)
+Theorem C06_compute_tau_smallest_no_crash : forall x g lb ub, compute_tau ASSmallest x g lb ub <> TauCrash.
+Proof. exact smallest_no_crash. Qed.
+Theorem C06_compute_tau_smallest_assertion : forall x g lb ub t0 ts,
+  filter ext_pos (tau_vals x g lb ub) = t0 :: ts ->
+  match fold_left ext_min ts t0 with Fin p => 0 <= p | PInf => True end.
+Proof. exact smallest_min_tau_nonneg. Qed.
+Theorem C06_compute_tau_smallest_positive : forall x g lb ub t,
+  compute_tau ASSmallest x g lb ub = TauVal t -> ext_pos t = true.
+Proof. exact smallest_positive. Qed.
+Theorem C06_compute_tau_largest : forall x g lb ub,
+  (forall t, compute_tau ASLargest x g lb ub = TauVal t -> match t with Fin p => 1 <= p | PInf => True end)
+  /\ (compute_tau ASLargest x g lb ub = TauCrash -> tau_vals x g lb ub = []).
+Proof. intros x g lb ub. split; [apply largest_ge_one|apply largest_crash_only_without_variables]. Qed.
+(* non-vacuity: a variable on its lower bound pushed into it (breakpoint 0), one moving towards +inf, one with the
+   breakpoint 3: the smallest rule returns 3/2, the largest +inf *)
+Example C06_compute_tau_nonvacuous :
+  compute_tau ASSmallest [0; 1; 2] [1; -(1); -(1)] [Some 0; None; None] [None; None; Some 5] = TauVal (Fin (Qmake 3 2))
+  /\ compute_tau ASLargest [0; 1; 2] [1; -(1); -(1)] [Some 0; None; None] [None; None; Some 5] = TauVal PInf.
+Proof. vm_compute. split; reflexivity. Qed.
+
 Print Assumptions C06_loop_total.
 Print Assumptions C06_fact_positive.
 Print Assumptions C06_lambda_positive.
 Print Assumptions C06_penalty_asserts_unreachable.
+Print Assumptions C06_compute_tau_smallest_no_crash.
+Print Assumptions C06_compute_tau_smallest_assertion.
+Print Assumptions C06_compute_tau_smallest_positive.
+Print Assumptions C06_compute_tau_largest.
